@@ -6,7 +6,9 @@ Tie between coq/theories/Trace.v and py7zr:
     of the final signature header, data-then-header-then-signature, the append start position);
   * write_at/run against io.BytesIO and a real file (gaps, zero-length writes);
   * image_at / image_lost against an independent reconstruction;
-  * open_view / sig_ok / enc_desc against SignatureHeader.retrieve + _real_get_contents on the crash images.
+  * open_view / sig_ok / enc_desc against SignatureHeader.retrieve + _real_get_contents on the crash images;
+  * desc_protected: every encoded-header descriptor the writer emits carries the CRC of the plain header (the hypothesis
+    of C14_append_plain_crash_safe; py7zr repair "store the CRC of the plain header in an encoded header").
 Exploration: every byte-granular prefix of every recorded session (and the variants with the previous write lost, or any
 one write lost at the end) is opened with py7zr under a watchdog: error, the new member map, or (append) the old one.
 """
@@ -43,7 +45,11 @@ TRUSTED_BASE = [
 ASSUMPTIONS = [
     "the theorems are about the next header the reader is handed (signature header + next-header CRC); that this header "
     "and the untouched packed streams determine the member list is the parser's business (C06/C07/C17)",
-    "decoders of encoded headers are abstract in the model (Section variable dec); the window theorem holds for every dec",
+    "decoders of encoded headers are abstract in the model (Section variable dec); C14_append_plain_crash_safe holds for "
+    "every dec, given that the old descriptor carries the plain-header CRC (checked here for every archive py7zr writes)",
+    "archives whose encoded-header descriptor has no CRC (written before the repair, or by other tools that omit it) are "
+    "outside the quantifier; appending to them keeps the window of C14_append_legacy_descriptor_window open "
+    "(observed, not reported: evidence key legacy_descriptor_session)",
     "the residual disjuncts of the theorems are CRC-32 collisions between two specific 20-byte strings (2^-32 per crash in "
     "a window of at most 15 byte positions); they are not excluded, they are named",
     "file systems that persist writes out of order: covered for ONE lost write (theorems C14_*_lost_body_write_safe at "
@@ -116,11 +122,34 @@ class deterministic:
         py7zr.compressor.get_random_bytes = self.r
 
 
+class legacy_descriptor:
+    """the encoded-header descriptor as py7zr wrote it before the repair: without the CRC of the plain header"""
+
+    def __init__(self, on):
+        self.on = on
+
+    def __enter__(self):
+        if self.on:
+            self.orig = ai.HeaderStreamsInfo.write
+
+            def write(hs, file):
+                ai.write_byte(file, ai.PROPERTY.ENCODED_HEADER)
+                hs.packinfo.write(file)
+                hs.unpackinfo.write(file)
+                ai.write_byte(file, ai.PROPERTY.END)
+            ai.HeaderStreamsInfo.write = write
+        return self
+
+    def __exit__(self, *a):
+        if self.on:
+            ai.HeaderStreamsInfo.write = self.orig
+
+
 def run_session(spec, old=b""):
     """one write session on a recording file; returns (ops, final bytes)"""
     f = Rec(old)
     pw = spec.get("password")
-    with deterministic():
+    with deterministic(), legacy_descriptor(spec.get("legacy", False)):
         z = py7zr.SevenZipFile(f, spec["mode"], filters=arch.CHAINS[spec["chain"]], password=pw,
                                header_encryption=spec.get("henc", False))
         try:
@@ -389,6 +418,18 @@ def natural_append_of_file_starting_01_00():
             "old": {"chain": "lzma2", "header": "encoded", "members": M2, "password": None, "henc": False}}
     spec["id"] = "a/lzma2/encoded/picture.emf (content starts 01 00)"
     spec["directed"] = "append-over-encoded-header"
+    return spec
+
+
+def legacy_append_of_file_starting_01_00():
+    """the same append on an archive whose descriptor was written WITHOUT the plain-header CRC (py7zr before the repair):
+    informational -- such archives are not produced by the sessions the property quantifies over"""
+    spec = natural_append_of_file_starting_01_00()
+    spec["old"] = dict(spec["old"])
+    spec["old"]["legacy"] = True
+    spec["id"] = "a/lzma2/encoded/picture.emf on an archive with a pre-repair descriptor (informational)"
+    spec["tag"] = "#legacy-descriptor"
+    spec["informational"] = True
     return spec
 
 
@@ -705,6 +746,29 @@ def correspond_session(ctx, rep, rng, res, tier):
             sid, i, want[i] if i < len(want) else None, got[i] if i < len(got) else None, len(want), len(got)),
             {"kind": "trace", "session": spec_json(spec), "index": i}, concrete=False, match_keys={"kind": "trace-ops"})
         return
+    # every encoded-header descriptor the writer emits carries the CRC of the plain header
+    for which, data in (("new", final), ("old", old)):
+        if len(data) < 32 or (which == "old" and spec.get("old", {}).get("legacy")):
+            continue
+        dofs, dsize = struct.unpack("<QQ", data[12:28])
+        dh = data[32 + dofs:32 + dofs + dsize]
+        if dh[:1] != b"\x17":
+            continue
+        prot = model.call("trace_desc_protected", [100000, dh]) == 1
+        st = ai.HeaderStreamsInfo.retrieve(io.BytesIO(dh[1:]))
+        real = bool(st.unpackinfo.folders[0].digestdefined)
+        rep.count(("desc-protected", sid, which), nontrivial=True)
+        if prot != real:
+            rep.violation("%s: descriptor of the %s archive: model says plain-header CRC defined=%s, implementation %s" % (
+                sid, which, prot, real), {"kind": "enc-desc", "session": spec_json(spec)}, concrete=False,
+                match_keys={"kind": "enc-desc-digest"})
+            return
+        if not prot:
+            rep.violation("%s: the encoded header written for the %s archive carries no CRC of the plain header "
+                          "(hypothesis desc_protected of C14_append_plain_crash_safe fails: an append to it is exposed)" % (sid, which),
+                          {"kind": "enc-desc", "session": spec_json(spec), "which": which}, concrete=False,
+                          match_keys={"kind": "descriptor-without-crc"})
+            return
     # append start position = end of the packed streams of the old archive
     if spec["mode"] == "a":
         oofs, osize = struct.unpack("<QQ", old[12:28])
@@ -850,7 +914,8 @@ def run(ctx):
         rep.violation("file-semantics check raised %s" % e, {"kind": "exception", "trace": traceback.format_exc()[-1200:]},
                       concrete=False, match_keys={"kind": "exception"})
     specs = session_specs(tier)
-    for mk in (engineered_append_over_encoded_header, natural_append_of_file_starting_01_00, engineered_start_crc_collision):
+    for mk in (engineered_append_over_encoded_header, natural_append_of_file_starting_01_00, engineered_start_crc_collision,
+               legacy_append_of_file_starting_01_00):
         try:
             s = mk()
         except Exception as e:  # noqa
@@ -872,6 +937,18 @@ def run(ctx):
             rep.violation("%s: %s" % (sid, res["error"]), {"kind": "session-error", "session": spec_json(spec)},
                           concrete=True, match_keys={"kind": "session-error", "mode": spec["mode"]})
             return
+        if spec.get("informational"):
+            wins = collections.Counter(window_of(res, b) for b in res["bad"] if b["class"] == "wrong-contents")
+            rep.extra["legacy_descriptor_session"] = {
+                "session": sid, "crash_images": res["images"], "outcomes": res["counts"],
+                "wrong_contents_by_window": dict(wins),
+                "note": "old archive written with the pre-repair descriptor (no plain-header CRC); not a session of the property"}
+            other = [b for b in res["bad"] if b["class"] != "wrong-contents" or window_of(res, b) != "append-over-encoded-header"]
+            if not other:
+                return
+            res = dict(res)
+            res["bad"] = other
+            res["hang"] = []
         for key, n in res["counts"].items():
             total[key] += n
             rep.dist("outcome", key)
